@@ -14,6 +14,7 @@ import (
 	"sort"
 	"strings"
 
+	"github.com/iancoleman/strcase"
 	"github.com/pentops/j5/gen/j5/ext/v1/ext_j5pb"
 	"github.com/pentops/j5/gen/j5/list/v1/list_j5pb"
 	"github.com/pentops/j5/gen/j5/schema/v1/schema_j5pb"
@@ -68,7 +69,7 @@ func (t FTy) toProto(env EnumEnv) *schema_j5pb.Field {
 	case TInt:
 		f := &schema_j5pb.IntegerField{Format: schema_j5pb.IntegerField_Format(t.IK + 1)}
 		if r := t.Int; r != nil {
-			f.Rules = &schema_j5pb.IntegerField_Rules{Minimum: r.Min, Maximum: r.Max, ExclusiveMinimum: r.XMin, ExclusiveMaximum: r.XMax}
+			f.Rules = &schema_j5pb.IntegerField_Rules{Minimum: r.Min, Maximum: r.Max, ExclusiveMinimum: r.XMin, ExclusiveMaximum: r.XMax, MultipleOf: r.Mult}
 		}
 		if l != nil {
 			f.ListRules = &list_j5pb.IntegerRules{Filtering: filtering(l), Sorting: sorting(l)}
@@ -223,6 +224,9 @@ func (p Prop) toProto(env EnumEnv, number int32) *schema_j5pb.ObjectProperty {
 		if r := p.MapR; r != nil {
 			m.Rules = &schema_j5pb.MapField_Rules{MinPairs: r.Min, MaxPairs: r.Max}
 		}
+		if p.MapExt != nil {
+			m.Ext = &schema_j5pb.MapField_Ext{SingleForm: p.MapExt.Single}
+		}
 		op.Schema = &schema_j5pb.Field{Type: &schema_j5pb.Field_Map{Map: m}}
 	}
 	return op
@@ -236,7 +240,7 @@ func ftyFromProto(f *schema_j5pb.Field) (FTy, bool) {
 		}
 		out := FTy{Kind: TInt, IK: IKind(t.Integer.Format - 1), List: lpayFromMsg(t.Integer.ListRules)}
 		if r := t.Integer.Rules; r != nil {
-			out.Int = &IntRules{Min: r.Minimum, Max: r.Maximum, XMin: r.ExclusiveMinimum, XMax: r.ExclusiveMaximum}
+			out.Int = &IntRules{Min: r.Minimum, Max: r.Maximum, XMin: r.ExclusiveMinimum, XMax: r.ExclusiveMaximum, Mult: r.MultipleOf}
 		}
 		return out, true
 	case *schema_j5pb.Field_String_:
@@ -361,6 +365,9 @@ func propFromProto(env EnumEnv, op *schema_j5pb.ObjectProperty) (Prop, bool) {
 		if r := t.Map.Rules; r != nil {
 			p.MapR = &MapRules{Min: r.MinPairs, Max: r.MaxPairs}
 		}
+		if e := t.Map.Ext; e != nil {
+			p.MapExt = &MapExt{Single: e.SingleForm}
+		}
 		p.T, ok = ftyFromProto(t.Map.ItemSchema)
 	default:
 		p.T, ok = ftyFromProto(op.Schema)
@@ -380,10 +387,20 @@ func cleanDesc(d string) string {
 		return ""
 	}
 	var out []string
+	blank := 0
 	for _, l := range strings.Split(d, "\n") {
 		l = strings.TrimSpace(l)
-		if l == "" || strings.HasPrefix(l, "#") {
+		if l == "" {
+			if len(out) > 0 {
+				blank++
+			}
 			continue
+		}
+		if strings.HasPrefix(l, "#") {
+			continue
+		}
+		for ; blank > 0; blank-- {
+			out = append(out, "") // a paragraph break between two lines survives
 		}
 		out = append(out, l)
 	}
@@ -410,7 +427,7 @@ func normProp(env EnumEnv, p Prop) Prop {
 	switch t.Kind {
 	case TInt:
 		if r := t.Int; r != nil {
-			n := &IntRules{Min: r.Min, Max: r.Max}
+			n := &IntRules{Min: r.Min, Max: r.Max, Mult: r.Mult}
 			if r.Min != nil && isTrue(r.XMin) {
 				n.XMin = ptr(true)
 			}
@@ -783,7 +800,7 @@ func runC04(cfg *vh.Config) error {
 	res := vh.NewResult("C04", cfg.Seed)
 	res.Rule = "objects of 2-7 properties over every field type (integer x4, string, bytes, bool, enum, key x5 formats with entity keys, float x2, date, decimal, timestamp, any, object (flatten), oneof), each plain / required / optional / array (rules, singleForm) / map, every validation rule absent / zero / boundary, both values of every boolean, list rules (filtering, default filters, sorting, default sort, searching), descriptions; non-trivial = distinct property declaration carrying at least one rule, flag, format or annotation"
 	cf := &vh.CasesFile{
-		Header: "From Coq Require Import String List NArith ZArith.\nFrom J5V.lib Require Import Outcome.\nFrom J5V.model Require Import ProtoPrintLit ProtoPrint ProtoPrintFile.\nFrom J5V.model Require Import RulesDecl RulesRead RulesEnum RulesNested RulesInlineEnum RulesReadCorr.",
+		Header: "From Coq Require Import String List NArith ZArith.\nFrom J5V.lib Require Import Outcome.\nFrom J5V.model Require Import ProtoPrintLit ProtoPrint ProtoPrintFile.\nFrom J5V.model Require Import RulesDecl RulesRead RulesEnum RulesNested RulesInlineEnum RulesCompile RulesReadCorr.",
 		Type:   "c04case",
 		Check:  "c04_check",
 	}
@@ -791,6 +808,8 @@ func runC04(cfg *vh.Config) error {
 	// fork, so that VERIF_SEED=1,2,3 are unrelated streams
 	r := cfg.R.Fork("C04")
 	genTSBounds, genKeyWellKnown = false, true
+	genMapExt = true
+	defer func() { genMapExt = false }()
 	nObj := cfg.Scale(260, 4000)
 	distinct := vh.Distinct{}
 	caseNo := 0
@@ -806,9 +825,17 @@ func runC04(cfg *vh.Config) error {
 			kind = "oneof"
 		}
 		var props []genDecl
-		for i, n := 0, r.Range(2, 7); i < n; i++ {
+		nProps := r.Range(2, 7)
+		if u%16 == 5 {
+			// pinned: objects with more than 10 properties (field numbers of two digits:
+			// the printed order of the fields is the numeric one, not the order of the
+			// number's text; seeded C04-E)
+			nProps = r.Range(11, 30)
+			res.Count("object-with-more-than-10-properties")
+		}
+		for i, n := 0, nProps; i < n; i++ {
 			gd := genProp04(r, propName(r, i), env)
-			if gd.Class == "compile-error" {
+			if refused(gd.Class) {
 				continue // compile failures are C12's stream
 			}
 			if gd.P.T.Kind == TEnum && env.Unspecified != "" && env.Unspecified != "UNSPECIFIED" && env.Unspecified != env.Prefix+"UNSPECIFIED" {
@@ -833,7 +860,10 @@ func runC04(cfg *vh.Config) error {
 		res.Count(kind)
 		var dterms []string
 		for _, p := range props {
-			dterms = append(dterms, p.P.Coq())
+			dterms = append(dterms, p.P.XCoq())
+			if p.P.MapExt != nil {
+				res.Count("decl:map with ext")
+			}
 			res.Count("decl:" + shapeOf(p.P))
 			distinct.Add(p.P.Coq())
 		}
@@ -876,7 +906,7 @@ func runC04(cfg *vh.Config) error {
 					res.Count("reflected-unrepresentable")
 					continue
 				}
-				terms = append(terms, fmt.Sprintf("(Some (RP %s [%d]))", ap.Coq(), reflProps[i].ProtoField[0]))
+				terms = append(terms, rxTerm(ap, reflProps[i].ProtoField[0]))
 			}
 			refl = "(Ok [" + strings.Join(terms, ";") + "])"
 		}
@@ -1159,6 +1189,8 @@ func runC04(cfg *vh.Config) error {
 		}
 		caseNo++
 	}
+	genMapExt = false
+	runLink(cfg.R.Fork("C04-link"), cfg, res, cf, &caseNo, &evals)
 	runNested(cfg.R.Fork("C04-nested"), cfg, res, cf, &caseNo, &evals)
 	runInlineEnums(cfg.R.Fork("C04-inline-enum"), cfg, res, cf, &caseNo, &evals)
 	res.Evaluations = evals
@@ -1174,6 +1206,73 @@ func runC04(cfg *vh.Config) error {
 	}
 	res.Shards = shards
 	return res.Write(cfg.Out)
+}
+
+// rxTerm: a reflected property in the extended language (RulesCompile.rxprop):
+// the property, integer multipleOf, MapField.Ext
+func rxTerm(ap Prop, field int32) string {
+	mult := "None"
+	if ap.T.Kind == TInt && ap.T.Int != nil {
+		mult = optZ(ap.T.Int.Mult)
+	}
+	ext := "None"
+	if ap.PK == PMap && ap.MapExt != nil {
+		ext = "(Some " + optS(ap.MapExt.Single) + ")"
+	}
+	return fmt.Sprintf("(Some (RXP (RP %s [%d]) %s %s))", ap.Coq(), field, mult, ext)
+}
+
+// runLink: the validity premise of the statement ("valid j5s packages"): two properties
+// of one object whose proto field names (strcase.ToSnake of the property name) coincide
+// do not link. Objects of plain properties with names drawn so that they collide now and
+// then (the same name twice; fooBar next to foo_bar; aB next to a_b); the model's
+// compile_object refuses exactly those.
+func runLink(r *vh.Rand, cfg *vh.Config, res *vh.Result, cf *vh.CasesFile, caseNo *int, evals *int) {
+	genAST = false
+	env := theEnum
+	pools := [][]string{{"a", "b", "c", "fooBar", "foo_bar", "fooBAR", "aB", "a_b", "x1", "x_1", "someURL", "someUrl", "some_url", "id", "iD"}}
+	for u, n := 0, cfg.Scale(40, 600); u < n; u++ {
+		k := r.Range(2, 5)
+		var pl []Prop
+		seen := map[string]int{}
+		collide := false
+		for i := 0; i < k; i++ {
+			name := vh.Pick(r, pools[0])
+			if r.Chance(40) {
+				name = fmt.Sprintf("%s%d", name, i) // mostly distinct
+			}
+			sn := strcase.ToSnake(name)
+			if _, dup := seen[sn]; dup {
+				collide = true
+			}
+			seen[sn] = i
+			t := vh.Pick(r, []FTy{{Kind: TStr}, {Kind: TInt, IK: I32}, {Kind: TBool}})
+			pl = append(pl, Prop{Name: name, T: t})
+		}
+		c, src := compileRoot("object", env, "", append(append([]Prop{}, pl...), sentinel))
+		*evals++
+		ok := c.err == nil && c.panic == nil
+		var xs []string
+		for _, p := range pl {
+			xs = append(xs, p.XCoq())
+		}
+		res.Count("link")
+		if collide {
+			res.Count("link-collision")
+		}
+		input := map[string]any{"j5s": src}
+		switch {
+		case c.panic != nil:
+			res.Fail(vh.Failure{Case: *caseNo, Stream: "link", Sig: "C04 link: the compiler panics on an object with colliding property names", Clause: "valid j5s packages", Input: input, Got: fmt.Sprint(c.panic)})
+		case ok && collide:
+			res.Fail(vh.Failure{Case: *caseNo, Stream: "link", Sig: "C04 link: an object with two properties of the same proto field name compiles", Clause: "valid j5s packages (property names distinct up to strcase.ToSnake)", Input: input, Got: "compiles"})
+		case !ok && !collide:
+			res.Fail(vh.Failure{Case: *caseNo, Stream: "link", Sig: "C04 link: an object with pairwise different proto field names does not compile: " + firstWords(fmt.Sprint(c.err), 8), Clause: "valid j5s packages", Input: input, Got: fmt.Sprint(c.err)})
+		}
+		cf.Terms = append(cf.Terms, fmt.Sprintf("C04Link %s [%s] %s", env.Coq(), strings.Join(xs, ";"), vh.BoolTerm(ok)))
+		res.Cases = append(res.Cases, vh.CaseRec{Case: *caseNo, Stream: "link", Input: input, Impl: map[string]any{"compiles": ok, "error": fmt.Sprint(c.err)}})
+		*caseNo++
+	}
 }
 
 func protoString(m proto.Message) string {
